@@ -388,7 +388,7 @@ func main() {
 
 	// valid 13.x definitions
 	rv := r.Fork("valid13")
-	nValid := tierCount(o, 110, 6000)
+	nValid := tierCount(o, 110, 5000)
 	for i := 0; i < nValid; i++ {
 		ri := rv.Fork(fmt.Sprint(i))
 		gd := genDef(ri, ri.Intn(6))
@@ -404,7 +404,7 @@ func main() {
 	d.flushMig()
 
 	// current definitions with one targeted change: the reader's verdict against valid_current
-	d.runReadChecks(r.Fork("read"), tierCount(o, 300, 20000))
+	d.runReadChecks(r.Fork("read"), tierCount(o, 300, 10000))
 
 	// legacy definitions
 	rl := r.Fork("legacy")
